@@ -104,4 +104,18 @@ CLAIMS["C03"] = {
     "note": "Trusts: set() de-duplication through Individual.__eq__/__hash__ (C20), sorted() ascending and stable, random.sample distinctness, comparator semantics (C01).",
 }
 
+CLAIMS["C05"] = {
+    "category": "other",
+    "technique": "path enumeration of Job.evaluate (guard precedence, per-attempt call counting, value provenance of costs, freshness of the constraint values feeding the marker); shape rules for calc_signed_costs and the sign table; bridge/wiring rules",
+    "text": "Decides on all paths of Job.evaluate that the EVALUATED-guard precedes every objective-reaching call, that each attempt calls "
+            "the objective at most once, that the success path stores the call's result unmodified as costs, then calls "
+            "calc_signed_costs(problem.signs), then marks EVALUATED, and that whenever the feasibility marker is derived it uses "
+            "constraints evaluated on the currently stored vector (after the last re-sample). calc_signed_costs is sign*round(cost, "
+            "stored precision) with `not feasible` appended last; feasible = all(g<0); the sign table maps minimise/absent to +1 and "
+            "anything else to -1 (complete decision table). evaluate_serial calls the job once per EMPTY member; the scalar bridge "
+            "records, evaluates once and returns costs_signed[0], and SciPy/NLopt are wired to it; the sweep builds, records and "
+            "evaluates one individual per generated vector. Purity of the user's objective is assumed.",
+    "note": "Trusts: objective/constraint functions are pure in the vector; np.round semantics; the default surrogate passes through (C19).",
+}
+
 NOT_APPLICABLE = {}
